@@ -90,19 +90,19 @@ func listItems(prop, tier string) []Item {
 func seqJobList(prop, tier string) []*SeqJob {
 	switch prop {
 	case "C01":
-		return c01SeqJobs(tier)
+		return append(c01SeqJobs(tier), metricsPerScopeSweep("C01", "size-sweep-counters-and-histograms-per-scope", tier, map[string]bool{"counter": true, "histogram": true}))
 	case "C07":
 		return []*SeqJob{c07SeqJob(tier)}
 	case "C02":
-		return c02SeqJobs(tier)
+		return append(c02SeqJobs(tier), metricsPerScopeSweep("C02", "size-sweep-gauges-per-scope", tier, map[string]bool{"gauge": true}))
 	case "C03":
 		return c03Jobs(tier)
 	case "C06":
 		return c06Jobs(tier)
 	case "C04":
-		return c04Jobs(tier)
+		return append(c04Jobs(tier), tagChainSweep("C04", "size-sweep-tag-chain", tier))
 	case "C05":
-		return c05Jobs(tier)
+		return append(c05Jobs(tier), tagChainSweep("C05", "size-sweep-tag-chain", tier))
 	case "C10":
 		return c10Jobs(tier)
 	case "C11":
